@@ -26,12 +26,8 @@ void h_gstrs_solve(void) {
   in_Ustore.nzval = in_Uval; in_Ustore.rowind = in_Urow; in_Ustore.colbeg = in_Ucolbeg; in_Ustore.colend = in_Ucolend;
   @p@gstrs(in_trans, &in_L, &in_U, in_perm_r, in_perm_c, &in_B, &in_Gstat, &in_info);
   __CPROVER_assert(0, "canary: gstrs returns");
-  if (in_trans == NOTRANS && in_Lstore.nsuper >= 1 && in_xsupend[0] - in_xsup[0] > 1 && in_Lrowend[0] - in_Lrowbeg[0] > in_xsupend[0] - in_xsup[0])
-    __CPROVER_assert(0, "canary: no transpose, a supernode with several columns and rows below its diagonal block");
-  if (in_trans == NOTRANS && in_B.ncol == 2 && in_L.nrow == CAP) __CPROVER_assert(0, "canary: no transpose, two right-hand sides, full order");
-  if (in_trans == NOTRANS && in_B.ncol == 2 && g_trsmL == 1 && g_gemm == 1 && g_trsmU == 1) __CPROVER_assert(0, "canary: dense kernels called for the watched supernode, two right-hand sides");
-  if (in_trans == NOTRANS && in_Lstore.nsuper == CAP - 1 && in_Ucolend[CAP-1] - in_Ucolbeg[CAP-1] == CAP - 1) __CPROVER_assert(0, "canary: singleton supernodes, full last column of U");
-  if (in_trans == NOTRANS && in_Bstore.lda > in_L.nrow && in_B.ncol == 2 && in_Lstore.nsuper == 0 && in_L.nrow > 1) __CPROVER_assert(0, "canary: one dense supernode, padded leading dimension");
-  if (in_trans == TRANS && in_B.ncol == 2 && in_L.nrow == CAP) __CPROVER_assert(0, "canary: transpose, two right-hand sides");
-  if (in_L.nrow == 0) __CPROVER_assert(0, "canary: order 0");
+  if (in_trans == NOTRANS && in_B.ncol == 2 && in_Lstore.nsuper >= 1 && in_xsupend[0] - in_xsup[0] > 1 && in_Lrowend[0] - in_Lrowbeg[0] > in_xsupend[0] - in_xsup[0] && in_Bstore.lda > in_L.nrow && g_s == 0 && g_trsmL == 1 && g_gemm == 1 && g_trsmU == 1)
+    __CPROVER_assert(0, "canary: no transpose, two right-hand sides, first supernode has several columns and rows below its diagonal block, dense kernels called for it, padded leading dimension");
+  if (in_trans == NOTRANS && in_B.ncol == 2 && in_Lstore.nsuper == CAP - 1 && in_Ucolend[CAP-1] - in_Ucolbeg[CAP-1] == CAP - 1) __CPROVER_assert(0, "canary: no transpose, two right-hand sides, singleton supernodes, full last column of U");
+  if (in_trans == TRANS && in_B.ncol == 2 && in_L.nrow == CAP) __CPROVER_assert(0, "canary: transpose, two right-hand sides, full order");
 }
